@@ -1,7 +1,7 @@
 # Sizing and claim for C07 (see props/__init__.py)
 SPEC = {
         "quick": {"rc_cases": 200000, "rc_procs": 8, "enum": True},
-        "thorough": {"rc_cases": 2000000, "rc_procs": 12, "enum": True, "fuzz_secs": 120, "fuzz_workers": 8},
+        "thorough": {"rc_cases": 1500000, "rc_procs": 8, "enum": True, "fuzz_secs": 90, "fuzz_workers": 6},
         "claim": {
             "category": "exploration",
             "technique": "bounded-exhaustive enumeration + rapidcheck/libFuzzer generated (haystack, needle, start, limit) cases against a naive reference scan, all needle overloads compared",
